@@ -6,6 +6,9 @@ package main
 // installs its own oracle.
 
 import (
+	"bytes"
+	"encoding/hex"
+	"fmt"
 	"go/types"
 	"path"
 	"unicode"
@@ -99,6 +102,169 @@ func installStringModels(m *Machine) {
 			return nil, false
 		}
 		return []Val{int64(strings.IndexRune(s, rune(r)))}, true
+	}
+	m.Hooks["strings.Cut"] = func(m *Machine, st *State, call *ssa.CallCommon, args []Val) ([]Val, bool) {
+		a, ok := exactStrings(args)
+		if !ok || len(a) != 2 {
+			return nil, false
+		}
+		x, y, found := strings.Cut(a[0], a[1])
+		return []Val{&TupleV{E: []Val{x, y, found}}}, true
+	}
+	m.Hooks["strings.LastIndexByte"] = func(m *Machine, st *State, call *ssa.CallCommon, args []Val) ([]Val, bool) {
+		s, ok := args[0].(string)
+		r, ok2 := args[1].(int64)
+		if !ok || !ok2 {
+			return nil, false
+		}
+		return []Val{int64(strings.LastIndexByte(s, byte(r)))}, true
+	}
+	m.Hooks["strings.Count"] = s2(func(st *State, a, b string) Val { return int64(strings.Count(a, b)) })
+	m.Hooks["strings.EqualFold"] = s2(func(st *State, a, b string) Val { return strings.EqualFold(a, b) })
+	m.Hooks["strings.ContainsAny"] = s2(func(st *State, a, b string) Val { return strings.ContainsAny(a, b) })
+	m.Hooks["strings.IndexAny"] = s2(func(st *State, a, b string) Val { return int64(strings.IndexAny(a, b)) })
+	m.Hooks["strings.SplitAfter"] = s2(func(st *State, a, b string) Val { return strSlice(st, strings.SplitAfter(a, b)) })
+	m.Hooks["strings.ReplaceAll"] = func(m *Machine, st *State, call *ssa.CallCommon, args []Val) ([]Val, bool) {
+		a, ok := exactStrings(args)
+		if !ok || len(a) != 3 {
+			return nil, false
+		}
+		return []Val{strings.ReplaceAll(a[0], a[1], a[2])}, true
+	}
+	m.Hooks["strings.Repeat"] = func(m *Machine, st *State, call *ssa.CallCommon, args []Val) ([]Val, bool) {
+		s, ok := args[0].(string)
+		n, ok2 := args[1].(int64)
+		if !ok || !ok2 || n < 0 || n > 1000 {
+			return nil, false
+		}
+		return []Val{strings.Repeat(s, int(n))}, true
+	}
+	byteSliceOf := func(st *State, v Val) ([]byte, bool) {
+		if _, isNil := v.(nilV); isNil {
+			return nil, true
+		}
+		elems, many, ok := m.sliceElems(st, v)
+		if !ok || many {
+			return nil, false
+		}
+		out := make([]byte, len(elems))
+		for i, e := range elems {
+			n, ok := e.(int64)
+			if !ok {
+				return nil, false
+			}
+			out[i] = byte(n)
+		}
+		return out, true
+	}
+	b2 := func(f func(a, b []byte) Val) HookFn {
+		return func(m *Machine, st *State, call *ssa.CallCommon, args []Val) ([]Val, bool) {
+			x, ok1 := byteSliceOf(st, args[0])
+			y, ok2 := byteSliceOf(st, args[1])
+			if !ok1 || !ok2 {
+				return nil, false
+			}
+			return []Val{f(x, y)}, true
+		}
+	}
+	m.Hooks["bytes.Equal"] = b2(func(a, b []byte) Val { return bytes.Equal(a, b) })
+	m.Hooks["bytes.HasPrefix"] = b2(func(a, b []byte) Val { return bytes.HasPrefix(a, b) })
+	m.Hooks["bytes.HasSuffix"] = b2(func(a, b []byte) Val { return bytes.HasSuffix(a, b) })
+	m.Hooks["bytes.Contains"] = b2(func(a, b []byte) Val { return bytes.Contains(a, b) })
+	m.Hooks["encoding/hex.EncodeToString"] = func(m *Machine, st *State, call *ssa.CallCommon, args []Val) ([]Val, bool) {
+		if o, ok := args[0].(OpaqueV); ok {
+			return []Val{OpaqueV{"hex(" + o.Name + ")"}}, true
+		}
+		x, ok := byteSliceOf(st, args[0])
+		if !ok {
+			return nil, false
+		}
+		return []Val{hex.EncodeToString(x)}, true
+	}
+	m.Hooks["strconv.FormatUint"] = func(m *Machine, st *State, call *ssa.CallCommon, args []Val) ([]Val, bool) {
+		n, ok := args[0].(int64)
+		base, ok2 := args[1].(int64)
+		if !ok || !ok2 {
+			return nil, false
+		}
+		return []Val{strconv.FormatUint(uint64(n), int(base))}, true
+	}
+	m.Hooks["strconv.FormatInt"] = func(m *Machine, st *State, call *ssa.CallCommon, args []Val) ([]Val, bool) {
+		n, ok := args[0].(int64)
+		base, ok2 := args[1].(int64)
+		if !ok || !ok2 {
+			return nil, false
+		}
+		return []Val{strconv.FormatInt(n, int(base))}, true
+	}
+	// strings.Builder: the builder's content lives in an opaque cell keyed by the builder's address
+	builderCell := func(st *State, recv Val) (*HObj, bool) {
+		p, ok := recv.(Ptr)
+		if !ok {
+			return nil, false
+		}
+		key := fmt.Sprintf("builder:%d:%s", p.Obj, p.Path)
+		for _, o := range st.Heap {
+			if bv, ok := o.V.(*StructV); ok && len(bv.F) == 2 {
+				if k, ok := bv.F[0].(string); ok && k == key {
+					return o, true
+				}
+			}
+		}
+		id := st.alloc(types.Typ[types.String], &StructV{F: []Val{key, ""}})
+		// keep the cell reachable from the builder object so that state normalisation does not drop it
+		if bo, ok := st.Heap[p.Obj]; ok {
+			if sv, ok := bo.V.(*StructV); ok && p.Path == "" && len(sv.F) > 0 {
+				sv.F[0] = Ptr{Obj: id}
+			} else if p.Path != "" {
+				st.store(Ptr{Obj: p.Obj, Path: pathAppend(p.Path, 0)}, Ptr{Obj: id})
+			}
+		}
+		return st.Heap[id], true
+	}
+	m.Hooks["(*strings.Builder).WriteString"] = func(m *Machine, st *State, call *ssa.CallCommon, args []Val) ([]Val, bool) {
+		c, ok := builderCell(st, args[0])
+		s, ok2 := args[1].(string)
+		if !ok || !ok2 {
+			return nil, false
+		}
+		sv := c.V.(*StructV)
+		sv.F[1] = sv.F[1].(string) + s
+		return []Val{&TupleV{E: []Val{int64(len(s)), nilV{}}}}, true
+	}
+	m.Hooks["(*strings.Builder).WriteByte"] = func(m *Machine, st *State, call *ssa.CallCommon, args []Val) ([]Val, bool) {
+		c, ok := builderCell(st, args[0])
+		b, ok2 := args[1].(int64)
+		if !ok || !ok2 {
+			return nil, false
+		}
+		sv := c.V.(*StructV)
+		sv.F[1] = sv.F[1].(string) + string([]byte{byte(b)})
+		return []Val{nilV{}}, true
+	}
+	m.Hooks["(*strings.Builder).WriteRune"] = func(m *Machine, st *State, call *ssa.CallCommon, args []Val) ([]Val, bool) {
+		c, ok := builderCell(st, args[0])
+		b, ok2 := args[1].(int64)
+		if !ok || !ok2 {
+			return nil, false
+		}
+		sv := c.V.(*StructV)
+		sv.F[1] = sv.F[1].(string) + string(rune(b))
+		return []Val{&TupleV{E: []Val{int64(1), nilV{}}}}, true
+	}
+	m.Hooks["(*strings.Builder).String"] = func(m *Machine, st *State, call *ssa.CallCommon, args []Val) ([]Val, bool) {
+		c, ok := builderCell(st, args[0])
+		if !ok {
+			return nil, false
+		}
+		return []Val{c.V.(*StructV).F[1]}, true
+	}
+	m.Hooks["(*strings.Builder).Len"] = func(m *Machine, st *State, call *ssa.CallCommon, args []Val) ([]Val, bool) {
+		c, ok := builderCell(st, args[0])
+		if !ok {
+			return nil, false
+		}
+		return []Val{int64(len(c.V.(*StructV).F[1].(string)))}, true
 	}
 	m.Hooks["strings.Fields"] = func(m *Machine, st *State, call *ssa.CallCommon, args []Val) ([]Val, bool) {
 		a, ok := exactStrings(args)
